@@ -295,14 +295,22 @@ def eval_leaf(leaf, key, value, doc=None):
     return eval_leaf_ex(leaf, key, value, doc)[0]
 
 
-def eval_cond(term, key, value, doc=None):
+_NULLV = "NULL"
+
+
+def _ev(term, key, value, doc):
     c = term["c"]
     if c == "null":
-        return True
+        return _NULLV
     if c == "leaf":
         return eval_leaf(term, key, value, doc)
-    a = eval_cond(term["a"], key, value, doc)
-    b = eval_cond(term["b"], key, value, doc)
+    a = _ev(term["a"], key, value, doc)
+    b = _ev(term["b"], key, value, doc)
+    # the null condition is the identity of all three operators
+    if b is _NULLV:
+        return a
+    if a is _NULLV:
+        return b
     if a is SKIP or b is SKIP:
         return SKIP
     if c == "and":
@@ -312,6 +320,23 @@ def eval_cond(term, key, value, doc=None):
     if c == "xor":
         return a != b
     raise ValueError(c)
+
+
+def eval_cond(term, key, value, doc=None):
+    r = _ev(term, key, value, doc)
+    return True if r is _NULLV else r  # a null condition on its own is satisfied by everything
+
+
+def simplify(term):
+    """remove null operands (identity) - the tree the library is documented to build"""
+    if term["c"] in ("null", "leaf"):
+        return term
+    a, b = simplify(term["a"]), simplify(term["b"])
+    if b["c"] == "null":
+        return a
+    if a["c"] == "null":
+        return b
+    return {"c": term["c"], "a": a, "b": b}
 
 
 def leaves(term):
